@@ -392,6 +392,16 @@ static int run_job(job_t const * j)
     (void)soxr_delay(s);
     armed = 0;
     emit("@POKE err=%d odone=%lu sticky=%d\n", e2 != 0, (unsigned long)od, soxr_error(s) != 0);
+    if (fail_from < 0) {            /* a caller that retries: soxr_clear again (its allocations succeed now), then use the object.  Whatever
+                                     * soxr_clear answers, nothing may crash; a torn-down object has to keep refusing. */
+      soxr_error_t e3, e4;
+      armed = 1;
+      e3 = soxr_clear(s);
+      id = od = 0;
+      e4 = soxr_process(s, j->split ? (void *)inptrs : (void *)inbuf, 16, &id, j->split ? (void *)outptrs : (void *)outbuf, 64, &od);
+      armed = 0;
+      emit("@POKE2 clear=%d err=%d sticky=%d\n", e3 != 0, e4 != 0, soxr_error(s) != 0);
+    }
   }
   armed = 1;
   soxr_delete(s);
